@@ -102,7 +102,7 @@ func (propC14) Check(r *Run) []Violation {
 				// the backend reset before reading the body: only the request line is known
 			}
 			native := t.native(typeOf[e.Backend])
-			isMsg := strings.HasSuffix(e.Path, "/v1/messages")
+			isMsg := e.Path == "/v1/messages" // the statement names the path; anything else that is not the chat path is unexpected
 			identical := e.BodySHA == c.ReqBodySHA
 			bodyKnown := e.ReqErr == "" && !(strings.HasSuffix(e.FaultFired, "@accept"))
 			if isMsg {
